@@ -358,6 +358,15 @@ def shard_main(fn: Callable[[int, int, str, int], Result]):
     ap.add_argument('rest', nargs='*')
     a = ap.parse_args()
     i, n = (int(t) for t in a.shard.split('/'))
+    # a run-away shard must fail alone (MemoryError -> exit 3 -> inconclusive) instead of waking the kernel's OOM killer;
+    # not for checks whose child processes need a huge address space (AddressSanitizer binaries: C11)
+    gb = int(os.environ.get('VF_SHARD_AS_GB', '14'))
+    if gb > 0 and not getattr(sys.modules.get(fn.__module__), 'NO_MEMORY_LIMIT', False):
+        try:
+            import resource
+            resource.setrlimit(resource.RLIMIT_AS, (gb << 30, gb << 30))
+        except Exception:
+            pass
     try:
         res = fn(i, n, a.tier, a.seed)
         doc = res.to_shard()
